@@ -26,7 +26,7 @@ from mc.core.explore import Shard, violation
 
 PROPERTY = "C20"
 RULE = (
-    "full product of 32 option sets x 13 queries x 14 documents run in-process through cli.main(); "
+    "full product of 32 option sets x 20 queries x 14 documents run in-process through cli.main(); "
     "expected outcome computed from find() (success) or from the input class (failure); 48 cases "
     "replayed through real subprocesses and compared byte for byte with the in-process "
     "observation; distinct by construction; non-trivial = cases whose expected outcome is a failure "
@@ -42,6 +42,9 @@ QUERIES = [
     ("valid", "$"),
     ("syntax", "$["), ("syntax", "$.a b"), ("type", "$[?count(1) == 1]"), ("name", "$[?nosuch(@.a)]"),
     ("index", "$[9007199254740992]"), ("overflow", "$[?@ == 1e400]"), ("syntax", "$[?@ == 'a\x01']"),
+    # invalid queries that contain line breaks: the diagnostic must still be one line
+    ("syntax", "$['a\nb']"), ("syntax", '$[?@.v == "x\ny"]'), ("syntax", "$\n[\n"), ("syntax", "$.a\r\n b"),
+    ("type", "$[?count(\n1\n) == 1]"), ("name", "$[?\nnosuch(@.a)\n]"), ("valid", "$\n.a"),
 ]
 
 
